@@ -370,7 +370,7 @@ class FnAlloc:
                     if inc["b"] == p:
                         v = inc["v"]
                         if v["k"] == "inst" and v["v"] in e: v = e[v["v"]]
-                        if v is not None and v["k"] in ("int", "null"): e[i.id] = v
+                        if v is not None and v["k"] in ("int", "null", "arg"): e[i.id] = v
                         else: e.pop(i.id, None)
             t = blk.term
             if t.op == "ret":
